@@ -90,8 +90,10 @@ def _unrendered_uses(P: Project, cls, f: FuncInfo, names: set, seen: set):
             cn = call_name(par)
             if cn in _RENDERERS or cn.split(".")[-1] in ("dumps",):
                 continue
-            if cn.startswith("self.") and cn[5:] in meths:
-                g = meths[cn[5:]]
+            g = None
+            if cn.startswith("self."):
+                g = meths.get(cn[5:]) or (P.lookup_method(cls, cn[5:]) if cls is not None else None) or (P.lookup_method(f.cls, cn[5:]) if f.cls is not None else None)
+            if g is not None:
                 idx = par.args.index(n)
                 gp = [p_ for p_ in g.positional_params() if p_ != "self"]
                 if idx < len(gp):
